@@ -213,7 +213,7 @@ func (s *Sim) run(res *Result) {
 			op := op
 			w.At(ms(op.AtMs), fmt.Sprintf("sgwop:%09d", op.AtMs), func() {
 				if s.sgw.first != nil {
-					s.sgw.send(s.sgw.first, op.Pkt, "op")
+					s.sgw.sendOp(s.sgw.first, op.Pkt)
 				}
 			})
 		}
@@ -275,6 +275,9 @@ func (s *Sim) run(res *Result) {
 func (s *Sim) finish(res *Result) {
 	w := s.W
 	res.StepCap = w.StepCapHit
+	if w.Stalls > 0 {
+		s.faults["stall"] += int(w.Stalls)
+	}
 	res.MutexWaiters = w.MutexWaiters()
 	n, sample := simrt.Census("github.com/energomonitor/bisquitt/")
 	res.LeakedN, res.Leaked = n, sample
@@ -435,7 +438,10 @@ func (a *clientActor) do(i int, op ClientOp) {
 func (a *clientActor) run() {
 	for i, op := range a.plan.Ops {
 		if op.GapMs > 0 {
-			time.Sleep(ms(op.GapMs))
+			// released by a driver event with an odd-nanosecond offset: never ties with code timers
+			c := make(chan struct{})
+			a.s.W.After(ms(op.GapMs)+a.s.W.HarnessJitter("gap", a.plan.Name, i), fmt.Sprintf("gap:%s:%04d", a.plan.Name, i), func() { close(c) })
+			<-c
 		}
 		if op.Async {
 			i, op := i, op
